@@ -45,9 +45,17 @@ var Fix = map[string][]string{
 	"rpm":     {"rocky-basesystem-11-13.el9.noarch.rpm"},
 	"dmg":     {"dummy.dmg"},
 	"xar":     {"dummy.pkg"},
+	"pgp":     {"gen:txt:mixed.txt"},
 }
 
-var Types = []string{"pe-coff", "msi", "cab", "ps", "jar", "apk", "appx", "vsix", "xap", "cat", "deb", "rpm", "dmg", "xar"}
+var Types = []string{"pe-coff", "msi", "cab", "ps", "jar", "apk", "appx", "vsix", "xap", "cat", "deb", "rpm", "dmg", "xar", "pgp"}
+
+// PgpFlagSets: every output form of the PGP signer (detached / inline / cleartext) x armor x text mode
+var PgpFlagSets = []string{"-", "armor=true", "textmode=true", "armor=true;textmode=true", "inline=true", "inline=true;armor=true",
+	"inline=true;textmode=true", "inline=true;armor=true;textmode=true", "clearsign=true", "clearsign=true;textmode=true"}
+
+// (the hidden flag pgp=mini-clear exists for relic 2.0 clients, which merge the returned armor block into a cleartext
+// document themselves; alone it yields no verifiable artifact.  The merge is covered by the PGP model's `merge` ops.)
 var Hashes = []string{"sha1", "sha224", "sha256", "sha384", "sha512"}
 
 func hashOf(n string) crypto.Hash {
@@ -98,6 +106,12 @@ func Gen(w *bufio.Writer, seed uint64, tier string, prop string) {
 		}
 		for _, fx := range Fix["ps"] {
 			fmt.Fprintf(w, "E2E sign ps %s sha256 p384 -\n", fx)
+		}
+		for _, fl := range PgpFlagSets {
+			for _, fx := range []string{"gen:txt:mixed.txt", "gen:txt:crlf.txt", "gen:txt:binary.bin"} {
+				fmt.Fprintf(w, "E2E sign pgp %s sha256 rsa %s\n", fx, fl)
+			}
+			fmt.Fprintf(w, "E2E sign pgp gen:txt:mixed.txt sha512 rsa,rsa %s\n", fl)
 		}
 	}
 	// (1b) JAR shapes the fixture does not have, and histories whose *options* differ between the rounds
@@ -231,14 +245,28 @@ func payloadView(typ, path string) string {
 			}
 		}
 		h.Write(bytes.TrimRight(b, "\r\n\x00"))
+	case "pgp":
+		return "n/a" // detached: the content file is never an output; signed messages: Relic.Model.Pgp (payload theorems)
 	default:
 		return "n/a"
 	}
 	return hex.EncodeToString(h.Sum(nil))[:16]
 }
 
-// genFixture builds synthetic inputs: "gen:jar:<variant>.jar"
+// genFixture builds synthetic inputs: "gen:jar:<variant>.jar", "gen:txt:<variant>"
 func genFixture(spec string) ([]byte, error) {
+	switch spec {
+	case "gen:txt:mixed.txt": // bare LF, CRLF, lone CR, trailing blanks, dash-escaped lines, no final newline
+		return []byte("first line\nsecond line with trailing blanks  \t\r\n- dash line\n-----BEGIN PGP FAKE-----\nFrom here\rlone CR\n\nlast line without newline"), nil
+	case "gen:txt:crlf.txt":
+		return []byte("alpha\r\nbeta\r\n\r\ngamma\r\n"), nil
+	case "gen:txt:binary.bin":
+		b := make([]byte, 700)
+		for i := range b {
+			b[i] = byte(i*7 + i/13)
+		}
+		return b, nil
+	}
 	parts := strings.Split(strings.TrimSuffix(spec, ".jar"), ":")
 	if len(parts) != 3 || parts[1] != "jar" {
 		return nil, fmt.Errorf("unknown generated fixture %s", spec)
@@ -513,6 +541,16 @@ func Handle(f []string) string {
 		if i%2 == 1 { // alternate between in-place and new-path output
 			out = filepath.Join(dir, fmt.Sprintf("out%d-%s", i, strings.ReplaceAll(filepath.Base(fx), ":", "_")))
 		}
+		content := ""
+		if typ == "pgp" {
+			// a detached signature goes to its own file and is verified against the content; signed messages
+			// (inline, cleartext) replace nothing either: relic writes them to the output path
+			fl := flagsFor(i)
+			out = filepath.Join(dir, fmt.Sprintf("out%d.sig", i))
+			if fl["inline"] != "true" && fl["clearsign"] != "true" && fl["pgp"] != "mini-clear" {
+				content = path
+			}
+		}
 		if err := sg.Sign(typ, path, out, cert, h, flagsFor(i)); err != nil {
 			if i == 0 && strings.HasPrefix(err.Error(), "sign:") || strings.HasPrefix(err.Error(), "flags:") {
 				// the input must be untouched by a refusal
@@ -524,8 +562,10 @@ func Handle(f []string) string {
 			}
 			return fmt.Sprintf("FAIL round=%d sign:%s", i+1, strings.ReplaceAll(err.Error(), " ", "_"))
 		}
-		path = out
-		sigs, err := sg.Verify(typ, path, cert, false)
+		if content == "" {
+			path = out
+		}
+		sigs, err := sg.VerifyContent(typ, out, content, cert, false)
 		if err != nil {
 			return fmt.Sprintf("FAIL round=%d verify:%s", i+1, strings.ReplaceAll(err.Error(), " ", "_"))
 		}
